@@ -62,6 +62,9 @@ func malformToken(m *udm.UCANModel, edits []string) (ipld.Block, error) {
 	blockVariant := ""
 	for _, e := range edits {
 		p := strings.SplitN(e, ":", 2)
+		if len(p) < 2 {
+			continue // "resign" is applied by the caller
+		}
 		f, v := p[0], p[1]
 		switch f {
 		case "iss", "aud":
@@ -269,6 +272,21 @@ func genC11(cfg Config, emit Emit) error {
 			}
 			cls = "pair/" + k1 + "+" + k2
 		}
+		// half of the time the issuer itself wrote the malformed token, so its signature is good
+		if r.Intn(2) == 0 {
+			for ti := range w.Tokens {
+				ok := len(w.Tokens[ti].Malform) > 0
+				for _, e := range w.Tokens[ti].Malform {
+					if strings.HasPrefix(e, "iss:") || strings.HasPrefix(e, "sig:") || strings.HasPrefix(e, "block:") {
+						ok = false
+					}
+				}
+				if ok {
+					w.Tokens[ti].Malform = append(w.Tokens[ti].Malform, "resign")
+					cls += "+signed"
+				}
+			}
+		}
 		where := "proof"
 		if pos == w.Inv {
 			where = "invocation"
@@ -403,7 +421,7 @@ func execReq(a []string) (res Result) {
 	}
 	defer func() {
 		if r := recover(); r != nil {
-			res = Result{Impl: "panic", Oracle: fmt.Sprintf("fail:panic: %v", r)}
+			res = Result{Impl: "panic", Oracle: fmt.Sprintf("fail:panic: %v at %s", r, panicSite())}
 		}
 	}()
 	cw, err := Concretise(&w)
@@ -425,7 +443,7 @@ func execReqMut(a []string) (res Result) {
 	}
 	defer func() {
 		if r := recover(); r != nil {
-			res = Result{Impl: "panic", Oracle: fmt.Sprintf("fail:panic: %v", r)}
+			res = Result{Impl: "panic", Oracle: fmt.Sprintf("fail:panic: %v at %s", r, panicSite())}
 		}
 	}()
 	cw, err := Concretise(&w)
@@ -454,29 +472,4 @@ func execReqMut(a []string) (res Result) {
 	}
 	impl, oracle := reqOutcome(cw, body, carHdr)
 	return Result{Impl: impl, Oracle: oracle}
-}
-
-func init() {
-	// small debugging subset
-	gens["C11x"] = func(cfg Config, emit Emit) error {
-		for k := 0; k < 4; k++ {
-			emit("req", []string{mustJSON(selfAttestWorld(k))}, "special/self-attest", true)
-			emit("req", []string{mustJSON(zeroCapSiblingWorld(k))}, "special/zero-cap-sibling", true)
-		}
-		return nil
-	}
-}
-
-func init() {
-	gens["C11y"] = func(cfg Config, emit Emit) error {
-		n := 0
-		return genC11(cfg, func(op string, args []string, class string, nt bool) {
-			if op == "req" || op == "reqmut" {
-				n++
-				if n%10 == 0 {
-					emit(op, args, class, nt)
-				}
-			}
-		})
-	}
 }
